@@ -283,6 +283,15 @@ func (e *Env) ident(name string) TVal {
 			vc.note("contract of %s: %q no longer exists; read as %q (same type and position when the contracts were pinned)", vc.prog.funcName(fn), name, nn)
 			r := sub.ident(nn)
 			e.errs = sub.errs
+			// a range loop turned into an index loop or the reverse: the hidden index of a range loop is the index of
+			// the last element processed, an explicit index variable (initialised to 0) that of the next one
+			if r.T.Sort == SInt && len(sub.errs) == 0 {
+				if name == "rangeindex" && nn != "rangeindex" {
+					r.T = Term{app("-", r.T.S, "1"), SInt}
+				} else if nn == "rangeindex" && name != "rangeindex" {
+					r.T = Term{app("+", r.T.S, "1"), SInt}
+				}
+			}
 			return r
 		}
 	}
@@ -1190,6 +1199,16 @@ func (e *Env) call(n ECall) TVal {
 		}
 		a, b := e.tr(n.Args[0]), e.tr(n.Args[1])
 		return TVal{T: Term{app("mulR", a.T.S, b.T.S), SReal}}
+	case "ratOfString":
+		// ratOfString(s): the rational big.Rat.SetString reads from s (same symbol the executor uses)
+		if !argc(1) {
+			return TVal{}
+		}
+		{
+			a := e.tr(n.Args[0])
+			vc.declareFun("str_rat", []string{SStr}, SReal)
+			return TVal{T: Term{app("str_rat", a.T.S), SReal}}
+		}
 	case "toReal":
 		if !argc(1) {
 			return TVal{}
